@@ -485,6 +485,12 @@ func traceRun(r *cli.Repo, sc *Scenario, args []string, strict []string) ([]inte
 // projection of the end result compared between the uninterrupted run and a re-run:
 // every ref -> the table sums along its first-parent history (commit times differ).
 func endProjection(r *cli.Repo) (string, error) {
+	return endProjectionOf(r, false)
+}
+
+// withObjects: also the number of stored objects of every kind - what prune / gc are about: the re-run of an
+// interrupted prune must remove what the uninterrupted prune removes (C12 holds for the completed operation)
+func endProjectionOf(r *cli.Repo, withObjects bool) (string, error) {
 	db, rs, closeFn, err := r.Open()
 	if err != nil {
 		return "", err
@@ -523,6 +529,20 @@ func endProjection(r *cli.Repo) (string, error) {
 		}
 		sb.WriteString(walk(m[n], 0) + ";")
 	}
+	if withObjects {
+		for _, e := range []struct {
+			name string
+			list func(objects.Store) ([][]byte, error)
+		}{{"commits", objects.GetAllCommitKeys}, {"tables", objects.GetAllTableKeys}, {"blocks", objects.GetAllBlockKeys}} {
+			// (a table index or profile whose table went first is not among what C12 requires to be gone: prune killed
+			// between DeleteTable and DeleteTableIndex leaves those two small objects behind for good - noted, not judged)
+			keys, err := e.list(db)
+			if err != nil {
+				return "", err
+			}
+			sb.WriteString(fmt.Sprintf(" %s=%d", e.name, len(keys)))
+		}
+	}
 	return sb.String(), nil
 }
 
@@ -557,7 +577,8 @@ func killRun(r *cli.Repo, sc *Scenario, args []string, strict []string, work str
 	if code, out := runBin(refDir, 0); code != 0 {
 		return nil, fmt.Errorf("uninterrupted run failed (%d): %s", code, out)
 	}
-	want, err := endProjection(&cli.Repo{Root: refDir, WrglDir: filepath.Join(refDir, ".wrgl")})
+	sweeps := sc.Kind == "prune" || sc.Kind == "gc"
+	want, err := endProjectionOf(&cli.Repo{Root: refDir, WrglDir: filepath.Join(refDir, ".wrgl")}, sweeps)
 	if err != nil {
 		return nil, err
 	}
@@ -590,7 +611,7 @@ func killRun(r *cli.Repo, sc *Scenario, args []string, strict []string, work str
 		code, out = runBin(dir, 0)
 		got := ""
 		if code == 0 {
-			got, _ = endProjection(rr)
+			got, _ = endProjectionOf(rr, sweeps)
 		}
 		note := ""
 		if code != 0 {
